@@ -10,6 +10,8 @@
 import Upnp.Lemmas.C02Total
 import Upnp.Gen.C01Ssdp
 import Upnp.Gen.C02Recv
+import Upnp.Gen.C02Sites
+import Upnp.Model.C02Sites
 namespace Upnp.C02
 open Upnp Upnp.C01
 
@@ -40,6 +42,21 @@ theorem constants_pinned :
     ∧ Gen.C02Recv.searchKeys = [ofString "_udn", ofString "st", ofString "location"]
     ∧ Gen.C02Recv.advertisementKeys = [ofString "_udn", ofString "nt", ofString "nts", ofString "location"]
     ∧ Gen.C02Recv.byebyeKeys = [ofString "_udn", ofString "nt", ofString "nts"] := by decide
+
+/-- **The catalogue of raising primitives is the source's**: every occurrence, in the functions of the
+    receive path, of `int(`, `float(`, `urlsplit(`, `urlparse(`, `ip_address(`, `timedelta(`, `randrange(`,
+    `range(`, `parse_headers(`, `.decode(`, `.port`, `.hostname`, `+`, an index / `del x[k]`, a
+    tuple-unpacking assignment or an `assert` — with the handlers around it — is a row of the table
+    `covered` (Model/C02Sites.lean), which says for each row which exception of the model it is, or
+    why it cannot raise.  A new site, a moved one, or a handler that disappears breaks this theorem. -/
+theorem sites_covered : Gen.C02Sites.sites = covered.map (·.1) := by decide
+
+/-- every row that can raise and has no handler inside its own function is one of the model's
+    raising primitives (never an unmodelled "caught elsewhere") -/
+theorem unguarded_sites_are_modelled :
+    (covered.all fun r => match r.2 with
+      | .caught _ => r.1.2.2 != "-"
+      | _ => true) = true := by decide
 
 /-! ### totality -/
 
@@ -231,6 +248,14 @@ theorem classify_clock_irrelevant (cfg : Cfg) (ep : Endpoint) (data : Bytes) (lo
 /-- the C02 model decodes exactly as the C01 model does -/
 theorem decoder_is_C01 (d : Bytes) (loc : Option Addr) (src : Addr) (now : Int) :
     decodeX Fixes.all d loc src now = decode d loc src now := decodeX_all_eq d loc src now
+
+/-- the responder answers M-SEARCH only: whatever the headers say (`MAN: "ssdp:discover"`, a matching
+    ST, any MX), a message with another start line makes it send nothing and schedule nothing -/
+theorem responder_only_msearch (fx : Fixes) (cfg : Cfg) (rl : Bytes) (h : Hdrs)
+    (hrl : rl ≠ ofString "M-SEARCH * HTTP/1.1") : responder fx cfg rl h = .ok noEff := by
+  unfold responder isSearch
+  have : (rl == ofString "M-SEARCH * HTTP/1.1") = false := by simpa using hrl
+  simp [this]
 
 /-- the known-device map is a dict: its keys stay unique whatever arrives -/
 theorem purgeLoop_sublist (now : Int) (d : PyDict Bytes Int) (nx : Option Int) :
